@@ -68,7 +68,7 @@ inline bool DeepCompatible(const StructuredData& d, const Typification& t, const
 
 // "a model freshly built from the same content": records, base interpretations, structure data
 inline void RebuildModel(const RSModel& src, RSModel& fresh) {
-  for (const auto uid : src.List()) fresh.Load(src.Core().AsRecord(uid));
+  for (const auto uid : src.List()) fresh.Load(RawRecord(src.Core(), uid));
   fresh.UpdateState();
   fresh.FinalizeLoadingCore();
   for (const auto uid : src.List()) {
